@@ -135,6 +135,65 @@ func deadlockClass(blocked []string) string {
 	return ""
 }
 
+func has(l []uint32, id uint32) bool {
+	for _, x := range l {
+		if x == id {
+			return true
+		}
+	}
+	return false
+}
+
+func clientCheck(p ssh.VerifC37ClientParams) func(any) (string, string) {
+	return func(obs any) (string, string) {
+		r, _ := obs.(*ssh.VerifC37ClientResult)
+		if r == nil {
+			return "", ""
+		}
+		d := fmt.Sprintf("%+v -> %+v", p, *r)
+		if r.ListenErr != "" {
+			return "Listen failed although the peer granted the request", d
+		}
+		if !r.CloseReturned {
+			return "Close did not return", d
+		}
+		if !r.AfterCloseErrored {
+			return "Accept after Close did not report an error", d
+		}
+		if r.Accepted+r.AfterCloseConns > p.Forwards {
+			return "more connections accepted than forwards were sent for the address", d
+		}
+		for i := 0; i < p.Strangers; i++ {
+			if has(r.Confirmed, uint32(700+i)) {
+				return "forward for an unregistered address delivered", d
+			}
+			if !has(r.Rejected, uint32(700+i)) {
+				return "forward for an unregistered address was not rejected", d
+			}
+		}
+		if p.LateForward {
+			if has(r.Confirmed, 900) {
+				return "forward delivered to a listener after its Close returned", d
+			}
+			if !has(r.Rejected, 900) {
+				return "forward for a closed listener was not rejected", d
+			}
+		}
+		if len(r.Confirmed) != r.Accepted+r.AfterCloseConns {
+			return "accepted connections and channel confirmations disagree", d
+		}
+		return "", ""
+	}
+}
+
+func clientOutcome(obs any) string {
+	r, _ := obs.(*ssh.VerifC37ClientResult)
+	if r == nil {
+		return "<nil>"
+	}
+	return fmt.Sprintf("acc=%d after=%d conf=%d rej=%d closeErr=%v", r.Accepted, r.AfterCloseConns, len(r.Confirmed), len(r.Rejected), r.CloseErr != "")
+}
+
 func run(c *vf.Ctx) {
 	bound := 2
 	if c.Thorough {
@@ -153,6 +212,29 @@ func run(c *vf.Ctx) {
 			Outcome:       outcome,
 			DeadlockClass: deadlockClass,
 		})
+	}
+	// the real Client path: ListenTCP/ListenUnix, Accept, Close over a real mux
+	for _, unix := range []bool{false, true} {
+		for _, cancelOK := range []bool{true, false} {
+			for F := 0; F <= 2; F++ {
+				for A := 0; A <= F; A++ {
+					for _, late := range []bool{false, true} {
+						p := ssh.VerifC37ClientParams{Unix: unix, Forwards: F, Strangers: 1, Accepts: A, CancelOK: cancelOK, LateForward: late}
+						cb := bound
+						if cb > 1 && !c.Thorough {
+							cb = 1
+						}
+						scs = append(scs, schedx.Scenario{
+							Name: fmt.Sprintf("client unix=%v cancelOK=%v F=%d A=%d late=%v", unix, cancelOK, F, A, late), Group: fmt.Sprintf("real Client unix=%v", unix), Bound: cb,
+							Body:          func() any { return ssh.VerifC37Client(p) },
+							Check:         clientCheck(p),
+							Outcome:       clientOutcome,
+							DeadlockClass: deadlockClass,
+						})
+					}
+				}
+			}
+		}
 	}
 	schedx.Explore(c, scs)
 }
